@@ -505,6 +505,11 @@ func (m *NodeManager) runSynchronizeBlocks(ctx context.Context,
 		m.blockManagerLock.Lock()
 		blockSyncNeeded := m.blockSyncNeeded
 		m.blockSyncNeeded = false
+		if !blockSyncNeeded {
+			// This thread is finished. A trigger that arrives from now on must start a new thread and
+			// not only set the flag, which nothing would read after this point.
+			m.blockManagerThread = nil
+		}
 		m.blockManagerLock.Unlock()
 
 		if !blockSyncNeeded {
